@@ -18,7 +18,7 @@ From Coq Require Import NArith List Bool.
 Import ListNotations.
 From HV Require Import lib.Harness model.Validity model.Builder spec.BuilderS proofs.BuilderP proofs.BuilderExtP
   spec.BuilderWFS proofs.BuilderFrameP proofs.BuilderRulesP proofs.BuilderTypeP
-  proofs.BuilderAcyclicP proofs.BuilderNonLocalP.
+  proofs.BuilderAcyclicP proofs.BuilderNonLocalP proofs.BuilderInputsP.
 
 (* Proved for ALL programs of the modelled language, with no well-formedness premise: whenever the
    builder calls do not raise, the serialised document satisfies
@@ -70,6 +70,13 @@ Theorem C01_builder_ports_kinds : forall tys p g,
   r_port_counts g = true /\ r_edge_kinds g = true /\ r_derived_types tys g = true /\ r_const tys [] g = true.
 Proof. exact run_ports_kinds. Qed.
 Print Assumptions C01_builder_ports_kinds.
+
+(* Second pass.  r_inputs_once (rule 8): every value / static input port of every non-root node has exactly one
+   link, for every well-typed program (wt_prog) whose builder calls do not raise. *)
+Theorem C01_builder_inputs_once : forall tys p g,
+  wt_prog tys p = true -> run tys p = Ok g -> r_inputs_once g = true.
+Proof. exact run_inputs_once. Qed.
+Print Assumptions C01_builder_inputs_once.
 
 (* Second pass.  r_acyclic (rule 10, the boolean the validator computes: Kahn's algorithm on fuel over the
    value, static and order edges between the children of each dataflow container) for every program whose
